@@ -74,6 +74,56 @@ Theorem C23_mixed_ties_order_matters :
   dedupe [a; b] = [b] /\ dedupe [b; a] = [b; a] /\ key_of a = key_of b.
 Proof. exact mixed_example_differs. Qed.
 
+(* ---------------------------------------------------------------------------------------------
+   The same statements for the model that carries the token.File line table (the one executed by
+   the differential run): for EVERY line table, whenever SortImports returns, the declarations
+   keep their kind and parentheses, every processed block is a cutting into consecutive runs each
+   replaced by its sorted deduplicated version (file_post), hence set / duplicates / whole records: *)
+Theorem C23_lines_shape : forall srt, sorter_ok srt -> forall ds lines ds' lines',
+  sort_imports_m srt lines ds = Ok (ds', lines') ->
+  file_post (map to_decl ds) (map to_decl ds') /\ map frame ds' = map frame ds.
+Proof. exact sort_imports_m_spec. Qed.
+
+Theorem C23_lines_sort_imports_set : forall srt, sorter_ok srt -> forall ds lines ds' lines',
+  sort_imports_m srt lines ds = Ok (ds', lines') ->
+  forall p, In p (map np_of (lfile_specs ds')) <-> In p (map np_of (lfile_specs ds)).
+Proof. exact sort_imports_m_set. Qed.
+
+Theorem C23_lines_only_drops_dups : forall srt, sorter_ok srt -> forall ds lines ds' lines',
+  sort_imports_m srt lines ds = Ok (ds', lines') ->
+  exists dropped, Permutation (map ident_of (lfile_specs ds)) (map ident_of (lfile_specs ds') ++ map ident_of dropped) /\
+                  Forall (dropped_ok (lfile_specs ds')) dropped.
+Proof. exact sort_imports_m_drops. Qed.
+
+Theorem C23_lines_spec_atomic : forall srt, sorter_ok srt -> forall ds lines ds' lines',
+  sort_imports_m srt lines ds = Ok (ds', lines') ->
+  incl (map ident_of (lfile_specs ds')) (map ident_of (lfile_specs ds)).
+Proof. exact sort_imports_m_atomic. Qed.
+
+(* What does NOT hold for every layout (the faithful model refutes it; witnesses = known findings):
+   "the groups the printer sees after SortImports are the sorted runs" — with two specs on one
+   line a merge swallows the blank line after the run and two groups become one unsorted group *)
+Theorem C23_groups_stay_sorted_refuted :
+  let lines := [0; 9; 19; 20; 25]%Z in
+  let ds := [LImport true 25 [mk 0 122 10 13; mk 1 122 15 18; mk 2 97 21 24]] in
+  exists out lines', sort_imports_lines_exec lines ds = Ok ([LImport true 25 out], lines') /\
+    map (map sid) (groups_in lines [mk 0 122 10 13; mk 1 122 15 18; mk 2 97 21 24]) = [[0; 1]; [2]]%nat /\
+    map (map sid) (groups_in lines' out) = [[1; 2]]%nat /\ forallb path_sorted (groups_in lines' out) = false.
+Proof. exact glued_witness. Qed.
+
+(* "SortImports never panics": a removable duplicate on the last line of the file makes MergeLine panic *)
+Theorem C23_no_panic_refuted :
+  sort_imports_lines_exec [0%Z] [LImport true 16 [mk 0 97 8 11; mk 1 97 13 16]] = Panic.
+Proof. exact merge_panic_witness. Qed.
+
+(* "run boundaries are those of the original layout": line merges of one run can glue LATER runs *)
+Theorem C23_runs_of_original_layout_refuted :
+  let lines := [0; 9; 29; 30; 35; 36; 41]%Z in
+  let sp := [mk 0 122 10 13; mk 1 122 15 18; mk 2 122 20 23; mk 3 122 25 28; mk 4 98 31 34; mk 5 97 37 40] in
+  exists out lines', sort_imports_lines_exec lines [LImport true 41 sp] = Ok ([LImport true 41 out], lines') /\
+    map sid out = [3; 5; 4]%nat /\ map (map sid) (groups_in lines sp) = [[0; 1; 2; 3]; [4]; [5]]%nat.
+Proof. exact later_runs_witness. Qed.
+
 (* non-vacuity:  import ( "b" ; "a" // x ; "a" ; x "a" ;; "z" ; "y" )  on lines 2,3,4,5,7,8 *)
 Definition ex_block : list spec :=
   [mkSpec 0 [] [98%N] false [] 10 13 2 2; mkSpec 1 [] [97%N] true [120%N;10%N] 15 18 3 3;
@@ -104,3 +154,10 @@ Print Assumptions C23_block_is_sorted_runs.
 Print Assumptions C23_sorters_agree_on_keys.
 Print Assumptions C23_tie_order_irrelevant.
 Print Assumptions C23_mixed_ties_order_matters.
+Print Assumptions C23_lines_shape.
+Print Assumptions C23_lines_sort_imports_set.
+Print Assumptions C23_lines_only_drops_dups.
+Print Assumptions C23_lines_spec_atomic.
+Print Assumptions C23_groups_stay_sorted_refuted.
+Print Assumptions C23_no_panic_refuted.
+Print Assumptions C23_runs_of_original_layout_refuted.
